@@ -5,7 +5,7 @@ import Proofs.ExprLexLemmas
 `Lexeme r l`: the byte string `l` is one complete lexeme of rule `r` (a grammar of the lexemes, mirroring
 the ragel definitions). `fits r l rest`: the exact condition on what follows for the scanner to cut `l` off
 as a token of rule `r` (the longest-match rule makes `ab` one identifier, `a:` a keyword, `1.5` a float, …).
-`step_lexeme`: then the scanner's decision at `l ++ rest` is rule `r` on exactly `l`.
+`lexStep_lexeme`: then the scanner's decision at `l ++ rest` is rule `r` on exactly `l`.
 -/
 
 set_option linter.unusedSimpArgs false
@@ -173,8 +173,8 @@ theorem floatLen_int_lexeme (sg ds rest : Bytes) (hs : isSign sg) (hne : ds ≠ 
       simp [spanLen, h2]
   · rfl
 
-theorem step_int (sg ds rest : Bytes) (hs : isSign sg) (hne : ds ≠ []) (hd : ds.all isDigit = true)
-    (hf : fitsInt rest = true) : step (sg ++ ds ++ rest) = some (.rInt, (sg ++ ds).length) := by
+theorem lexStep_int (sg ds rest : Bytes) (hs : isSign sg) (hne : ds ≠ []) (hd : ds.all isDigit = true)
+    (hf : fitsInt rest = true) : lexStep (sg ++ ds ++ rest) = some (.rInt, (sg ++ ds).length) := by
   have hi := intLen_lexeme sg ds rest hs hne hd
   have hfl := floatLen_int_lexeme sg ds rest hs hne hd hf
   have hf' := hf
@@ -193,7 +193,7 @@ theorem step_int (sg ds rest : Bytes) (hs : isSign sg) (hne : ds ≠ []) (hd : d
       · exact ⟨d, t ++ rest, by simp, Or.inl hd.1⟩
       · exact ⟨45, d :: t ++ rest, by simp, Or.inr rfl⟩
   rw [hct] at hi hfl ⊢
-  rw [step_num c t hc, hi, hfl]
+  rw [lexStep_num c t hc, hi, hfl]
   exact foldl_pick [] _ _ _ (fun _ h => by cases h) (by
     intro x hx m hm
     simp only [List.mem_cons, List.mem_nil_iff, or_false] at hx
@@ -226,9 +226,9 @@ theorem floatLen_lexeme (sg ds fs rest : Bytes) (hs : isSign sg) (hne : ds ≠ [
   simp only [Nat.add_zero, beq_iff_eq, hl, if_false, List.length_append, List.length_cons]
   congr 1; omega
 
-theorem step_float (sg ds fs rest : Bytes) (hs : isSign sg) (hne : ds ≠ []) (hd : ds.all isDigit = true)
+theorem lexStep_float (sg ds fs rest : Bytes) (hs : isSign sg) (hne : ds ≠ []) (hd : ds.all isDigit = true)
     (hfne : fs ≠ []) (hfd : fs.all isDigit = true) (hf : headOK (fun b => !isDigit b) rest = true) :
-    step (sg ++ ds ++ 46 :: fs ++ rest) = some (.rFloat, (sg ++ ds ++ 46 :: fs).length) := by
+    lexStep (sg ++ ds ++ 46 :: fs ++ rest) = some (.rFloat, (sg ++ ds ++ 46 :: fs).length) := by
   obtain ⟨hi, hfl⟩ := floatLen_lexeme sg ds fs rest hs hne hd hfne hfd hf
   obtain ⟨c, t, hct, hc⟩ : ∃ c t, sg ++ ds ++ 46 :: fs ++ rest = c :: t ∧ (isDigit c = true ∨ c = 45) := by
     cases ds with
@@ -239,7 +239,7 @@ theorem step_float (sg ds fs rest : Bytes) (hs : isSign sg) (hne : ds ≠ []) (h
       · exact ⟨d, t ++ 46 :: fs ++ rest, by simp, Or.inl hd.1⟩
       · exact ⟨45, d :: t ++ 46 :: fs ++ rest, by simp, Or.inr rfl⟩
   rw [hct] at hi hfl ⊢
-  rw [step_num c t hc, hi, hfl]
+  rw [lexStep_num c t hc, hi, hfl]
   exact foldl_pick [(.rInt, some (sg ++ ds).length)] _ _ _ (by
     intro x hx m hm
     simp only [List.mem_cons, List.mem_nil_iff, or_false] at hx
@@ -266,12 +266,12 @@ theorem stringLen_lexeme (q : UInt8) (body rest : Bytes) (hq : (q == 34 || q == 
   simp only [List.cons_append, List.append_assoc, List.nil_append, stringLen, hq, if_true, hspan, hdrop,
     List.length_cons, List.length_append, List.length_nil]
 
-theorem step_string (q : UInt8) (body rest : Bytes) (hq : (q == 34 || q == 39) = true)
+theorem lexStep_string (q : UInt8) (body rest : Bytes) (hq : (q == 34 || q == 39) = true)
     (hb : body.all (fun b => b != q) = true) :
-    step (q :: body ++ [q] ++ rest) = some (.rString, (q :: body ++ [q]).length) := by
+    lexStep (q :: body ++ [q] ++ rest) = some (.rString, (q :: body ++ [q]).length) := by
   have hs := stringLen_lexeme q body rest hq hb
   simp only [List.cons_append, List.append_assoc] at hs ⊢
-  rw [step_quote q _ hq, hs]
+  rw [lexStep_quote q _ hq, hs]
   exact foldl_pick [] _ _ _ (fun _ h => by cases h) (by
     intro x hx m hm
     simp only [List.mem_cons, List.mem_nil_iff, or_false] at hx
@@ -392,17 +392,17 @@ def wordRule (l : Bytes) : Rule :=
 /-- what must not follow a word: identifier bytes (unless the word ends in `?`), and `:` (that would be a keyword) -/
 def fitsIdent (w rest : Bytes) : Bool := fitsWord w rest && headOK (fun b => b != 58) rest
 
-theorem step_word_lexeme (c : UInt8) (body qm rest : Bytes) (hc : isIdStart c = true)
+theorem lexStep_word_lexeme (c : UInt8) (body qm rest : Bytes) (hc : isIdStart c = true)
     (hb : body.all isIdCont = true) (hqm : qm = [] ∨ qm = [63])
     (hf : fitsIdent (c :: body ++ qm) rest = true) :
-    step (c :: body ++ qm ++ rest) = some (wordRule (c :: body ++ qm), (c :: body ++ qm).length) := by
+    lexStep (c :: body ++ qm ++ rest) = some (wordRule (c :: body ++ qm), (c :: body ++ qm).length) := by
   simp only [fitsIdent, Bool.and_eq_true] at hf
   have hid := identLen_lexeme c body qm rest hc hb hqm hf.1
   generalize hl : c :: body ++ qm = l at hid hf ⊢
   have hlpos : 1 ≤ l.length := by rw [← hl]; simp
   have hs : l ++ rest = c :: (body ++ qm ++ rest) := by rw [← hl]; simp
-  have hstep : step (l ++ rest) = (wordCands (l ++ rest)).foldl bestStep none := by
-    rw [hs]; exact step_word c _ hc
+  have hstep : lexStep (l ++ rest) = (wordCands (l ++ rest)).foldl bestStep none := by
+    rw [hs]; exact lexStep_word c _ hc
   rw [hstep]
   have hkey : keywordLen (l ++ rest) = none := by
     rw [keywordLen_of_ident _ _ hid, List.drop_left' rfl]
@@ -598,15 +598,15 @@ theorem step_word_lexeme (c : UInt8) (body qm rest : Bytes) (hc : isIdStart c = 
     simp only [Option.some.injEq] at hm; omega
 
 /-- `word:` is a keyword whatever follows -/
-theorem step_keyword (c : UInt8) (body qm rest : Bytes) (hc : isIdStart c = true)
+theorem lexStep_keyword (c : UInt8) (body qm rest : Bytes) (hc : isIdStart c = true)
     (hb : body.all isIdCont = true) (hqm : qm = [] ∨ qm = [63]) :
-    step (c :: body ++ qm ++ [58] ++ rest) = some (.rKeyword, (c :: body ++ qm ++ [58]).length) := by
+    lexStep (c :: body ++ qm ++ [58] ++ rest) = some (.rKeyword, (c :: body ++ qm ++ [58]).length) := by
   have hfw : fitsWord (c :: body ++ qm) (58 :: rest) = true := by simp [fitsWord, headOK, isIdCont, isAlnum, isAlpha, isDigit]
   have hid := identLen_lexeme c body qm (58 :: rest) hc hb hqm hfw
   generalize hl : c :: body ++ qm = w at hid ⊢
   have hs : w ++ [58] ++ rest = c :: (body ++ qm ++ 58 :: rest) := by rw [← hl]; simp
   have hs' : w ++ 58 :: rest = c :: (body ++ qm ++ 58 :: rest) := by rw [← hl]; simp
-  rw [hs, step_word c _ hc, ← hs']
+  rw [hs, lexStep_word c _ hc, ← hs']
   have hkey : keywordLen (w ++ 58 :: rest) = some (w.length + 1) := by
     rw [keywordLen_of_ident _ _ hid, List.drop_left' rfl]
     rfl
@@ -640,35 +640,35 @@ theorem step_keyword (c : UInt8) (body qm rest : Bytes) (hc : isIdStart c = true
 theorem propertyLen_cons (r : Bytes) : propertyLen (46 :: r) = (identLen r).map (· + 1) := rfl
 
 /-- `.word` -/
-theorem step_property (c : UInt8) (body qm rest : Bytes) (hc : isIdStart c = true)
+theorem lexStep_property (c : UInt8) (body qm rest : Bytes) (hc : isIdStart c = true)
     (hb : body.all isIdCont = true) (hqm : qm = [] ∨ qm = [63])
     (hf : fitsWord (c :: body ++ qm) rest = true) :
-    step (46 :: (c :: body ++ qm) ++ rest) = some (.rProperty, (46 :: (c :: body ++ qm)).length) := by
+    lexStep (46 :: (c :: body ++ qm) ++ rest) = some (.rProperty, (46 :: (c :: body ++ qm)).length) := by
   have hid := identLen_lexeme c body qm rest hc hb hqm hf
   have hne : ((46 : UInt8) == c) = false := by
     cases h : (46 : UInt8) == c with
     | false => rfl
     | true => have := (beq_iff_eq.1 h); subst this; simp [isIdStart, isAlpha] at hc
   simp only [List.cons_append] at hid ⊢
-  rw [step_dot, propertyLen_cons, hid]
+  rw [lexStep_dot, propertyLen_cons, hid]
   simp only [litLen_cons, BEq.rfl, if_true, hne, Bool.false_eq_true, if_false, Option.map_none, Option.map_some,
     List.foldl_cons, List.foldl_nil, bestStep_none, bestStep_first, bestStep_some, List.length_cons, List.length_append]
   have : ¬ (1 > body.length + qm.length + 1 + 1) := by omega
   simp only [this, if_false]
 
 /-- `..` whatever follows -/
-theorem step_dotdot (rest : Bytes) : step (46 :: 46 :: rest) = some (.rDotdot, 2) := by
+theorem lexStep_dotdot (rest : Bytes) : lexStep (46 :: 46 :: rest) = some (.rDotdot, 2) := by
   have hp : propertyLen (46 :: 46 :: rest) = none := by
     rw [propertyLen_cons, identLen_cons_other 46 rest (by decide)]; rfl
-  rw [step_dot, hp]
+  rw [lexStep_dot, hp]
   simp only [litLen_cons, BEq.rfl, if_true, litLen_nil, Option.map_some, List.foldl_cons, List.foldl_nil,
     bestStep_none, bestStep_first, bestStep_some]
   simp
 
 /-- a lone `.`: not followed by `.` nor by the start of an identifier -/
-theorem step_dot_alone (rest : Bytes) (hf : headOK (fun b => b != 46 && !isIdStart b) rest = true) :
-    step (46 :: rest) = some (.rAny, 1) := by
-  rw [step_dot, propertyLen_cons]
+theorem lexStep_dot_alone (rest : Bytes) (hf : headOK (fun b => b != 46 && !isIdStart b) rest = true) :
+    lexStep (46 :: rest) = some (.rAny, 1) := by
+  rw [lexStep_dot, propertyLen_cons]
   cases rest with
   | nil => simp [litLen_cons, litLen_nil_right, identLen, bestStep_first]
   | cons b t =>
@@ -682,16 +682,16 @@ theorem step_dot_alone (rest : Bytes) (hf : headOK (fun b => b != 46 && !isIdSta
 
 /-! ## Two-byte operators and their first bytes -/
 
-theorem step_op2 (c : UInt8) (rest : Bytes) (h : isOpStart c = true) :
-    step (c :: 61 :: rest) = some ((if c == 61 then .rEq else if c == 33 then .rNeq else if c == 62 then .rGe else .rLe), 2) := by
-  rw [step_op c _ h]
+theorem lexStep_op2 (c : UInt8) (rest : Bytes) (h : isOpStart c = true) :
+    lexStep (c :: 61 :: rest) = some ((if c == 61 then .rEq else if c == 33 then .rNeq else if c == 62 then .rGe else .rLe), 2) := by
+  rw [lexStep_op c _ h]
   simp only [isOpStart, Bool.or_eq_true, beq_iff_eq] at h
   rcases h with ((rfl | rfl) | rfl) | rfl <;>
     simp [litLen_cons, litLen_nil, bestStep_first, bestStep_some]
 
-theorem step_op1 (c : UInt8) (rest : Bytes) (h : isOpStart c = true) (hf : headOK (fun b => b != 61) rest = true) :
-    step (c :: rest) = some (.rAny, 1) := by
-  rw [step_op c _ h]
+theorem lexStep_op1 (c : UInt8) (rest : Bytes) (h : isOpStart c = true) (hf : headOK (fun b => b != 61) rest = true) :
+    lexStep (c :: rest) = some (.rAny, 1) := by
+  rw [lexStep_op c _ h]
   cases rest with
   | nil => simp [litLen_cons, litLen_nil_right, bestStep_first]
   | cons b t =>
@@ -705,48 +705,48 @@ theorem step_op1 (c : UInt8) (rest : Bytes) (h : isOpStart c = true) (hf : headO
 
 /-! ## `-`, `%`, `{` and the selectors -/
 
-theorem step_minus_alone (rest : Bytes) (hf : headOK (fun b => !isDigit b) rest = true) :
-    step (45 :: rest) = some (.rAny, 1) := by
-  rw [step_num 45 rest (Or.inr rfl)]
+theorem lexStep_minus_alone (rest : Bytes) (hf : headOK (fun b => !isDigit b) rest = true) :
+    lexStep (45 :: rest) = some (.rAny, 1) := by
+  rw [lexStep_num 45 rest (Or.inr rfl)]
   have hi : intLen (45 :: rest) = none := by
     rw [intLen_minus, spanLen_headOK _ _ hf]; rfl
   simp only [hi, floatLen, List.foldl_cons, List.foldl_nil, bestStep_none, bestStep_first]
 
-theorem step_percent_alone (rest : Bytes) (h1 : litLen kwAssign (37 :: rest) = none) (h2 : litLen kwLoop (37 :: rest) = none) :
-    step (37 :: rest) = some (.rAny, 1) := by
-  rw [step_percent, h1, h2]; rfl
+theorem lexStep_percent_alone (rest : Bytes) (h1 : litLen kwAssign (37 :: rest) = none) (h2 : litLen kwLoop (37 :: rest) = none) :
+    lexStep (37 :: rest) = some (.rAny, 1) := by
+  rw [lexStep_percent, h1, h2]; rfl
 
-theorem step_brace_alone (rest : Bytes) (h1 : litLen kwCycle (123 :: rest) = none) (h2 : litLen kwWhen (123 :: rest) = none) :
-    step (123 :: rest) = some (.rAny, 1) := by
-  rw [step_brace, h1, h2]; rfl
+theorem lexStep_brace_alone (rest : Bytes) (h1 : litLen kwCycle (123 :: rest) = none) (h2 : litLen kwWhen (123 :: rest) = none) :
+    lexStep (123 :: rest) = some (.rAny, 1) := by
+  rw [lexStep_brace, h1, h2]; rfl
 
-theorem step_selAssign (rest : Bytes) : step (kwAssign ++ rest) = some (.rAssign, kwAssign.length) := by
+theorem lexStep_selAssign (rest : Bytes) : lexStep (kwAssign ++ rest) = some (.rAssign, kwAssign.length) := by
   have h := litLen_self_append kwAssign rest
   have hl : litLen kwLoop (kwAssign ++ rest) = none := by simp [kwLoop, kwAssign, litLen_cons]
   have : kwAssign ++ rest = 37 :: ([97, 115, 115, 105, 103, 110, 32] ++ rest) := rfl
   rw [this] at h hl ⊢
-  rw [step_percent, h, hl]; rfl
+  rw [lexStep_percent, h, hl]; rfl
 
-theorem step_selLoop (rest : Bytes) : step (kwLoop ++ rest) = some (.rLoop, kwLoop.length) := by
+theorem lexStep_selLoop (rest : Bytes) : lexStep (kwLoop ++ rest) = some (.rLoop, kwLoop.length) := by
   have h := litLen_self_append kwLoop rest
   have hl : litLen kwAssign (kwLoop ++ rest) = none := by simp [kwLoop, kwAssign, litLen_cons]
   have : kwLoop ++ rest = 37 :: ([108, 111, 111, 112, 32] ++ rest) := rfl
   rw [this] at h hl ⊢
-  rw [step_percent, h, hl]; rfl
+  rw [lexStep_percent, h, hl]; rfl
 
-theorem step_selCycle (rest : Bytes) : step (kwCycle ++ rest) = some (.rCycle, kwCycle.length) := by
+theorem lexStep_selCycle (rest : Bytes) : lexStep (kwCycle ++ rest) = some (.rCycle, kwCycle.length) := by
   have h := litLen_self_append kwCycle rest
   have hl : litLen kwWhen (kwCycle ++ rest) = none := by simp [kwCycle, kwWhen, litLen_cons]
   have : kwCycle ++ rest = 123 :: ([37, 99, 121, 99, 108, 101, 32] ++ rest) := rfl
   rw [this] at h hl ⊢
-  rw [step_brace, h, hl]; rfl
+  rw [lexStep_brace, h, hl]; rfl
 
-theorem step_selWhen (rest : Bytes) : step (kwWhen ++ rest) = some (.rWhen, kwWhen.length) := by
+theorem lexStep_selWhen (rest : Bytes) : lexStep (kwWhen ++ rest) = some (.rWhen, kwWhen.length) := by
   have h := litLen_self_append kwWhen rest
   have hl : litLen kwCycle (kwWhen ++ rest) = none := by simp [kwCycle, kwWhen, litLen_cons]
   have : kwWhen ++ rest = 123 :: ([37, 119, 104, 101, 110, 32] ++ rest) := rfl
   rw [this] at h hl ⊢
-  rw [step_brace, h, hl]; rfl
+  rw [lexStep_brace, h, hl]; rfl
 
 /-! ## The grammar of lexemes -/
 
@@ -821,59 +821,59 @@ theorem fits_word (l rest : Bytes) : fits (wordRule l) l rest = fitsIdent l rest
 theorem punct_plain : ∀ c : UInt8, isPunct c = true → (c == 45) = false → (c == 46) = false → isOpStart c = false →
     (c == 37) = false → (c == 123) = false → isPlain c = true := by decide +kernel
 
-theorem getLast?_cons_cons (a c : UInt8) (t : Bytes) : (a :: c :: t).getLast? = (c :: t).getLast? := by
+theorem bytes_getLast?_cons_cons (a c : UInt8) (t : Bytes) : (a :: c :: t).getLast? = (c :: t).getLast? := by
   simp [List.getLast?_cons_cons]
 
 /-- **one step of the scanner on a lexeme** -/
-theorem step_lexeme (r : Rule) (l rest : Bytes) (hl : Lexeme r l) (hf : fits r l rest = true) :
-    step (l ++ rest) = some (r, l.length) := by
+theorem lexStep_lexeme (r : Rule) (l rest : Bytes) (hl : Lexeme r l) (hf : fits r l rest = true) :
+    lexStep (l ++ rest) = some (r, l.length) := by
   cases hl with
-  | int sg ds hs hne hd => exact step_int sg ds rest hs hne hd hf
-  | float sg ds fs hs hne hd hfne hfd => exact step_float sg ds fs rest hs hne hd hfne hfd hf
-  | string q body hq hb => exact step_string q body rest hq hb
+  | int sg ds hs hne hd => exact lexStep_int sg ds rest hs hne hd hf
+  | float sg ds fs hs hne hd hfne hfd => exact lexStep_float sg ds fs rest hs hne hd hfne hfd hf
+  | string q body hq hb => exact lexStep_string q body rest hq hb
   | word c body qm hc hb hqm =>
     rw [fits_word] at hf
-    exact step_word_lexeme c body qm rest hc hb hqm hf
-  | keyword c body qm hc hb hqm => exact step_keyword c body qm rest hc hb hqm
+    exact lexStep_word_lexeme c body qm rest hc hb hqm hf
+  | keyword c body qm hc hb hqm => exact lexStep_keyword c body qm rest hc hb hqm
   | property c body qm hc hb hqm =>
     have hf' : fitsWord (c :: body ++ qm) rest = true := by
       simp only [fits, fitsWord] at hf ⊢
-      rw [List.cons_append, getLast?_cons_cons] at hf
+      rw [List.cons_append, bytes_getLast?_cons_cons] at hf
       exact hf
-    exact step_property c body qm rest hc hb hqm hf'
+    exact lexStep_property c body qm rest hc hb hqm hf'
   | op2 c hc =>
-    have := step_op2 c rest hc
+    have := lexStep_op2 c rest hc
     simpa [opRule] using this
-  | dotdot => exact step_dotdot rest
+  | dotdot => exact lexStep_dotdot rest
   | punct c hc =>
     simp only [fits, fitsPunct] at hf
     by_cases h1 : (c == 45) = true
     · simp only [h1, if_true] at hf
-      rw [beq_iff_eq.1 h1]; exact step_minus_alone rest hf
+      rw [beq_iff_eq.1 h1]; exact lexStep_minus_alone rest hf
     simp only [h1, Bool.false_eq_true, if_false] at hf
     by_cases h2 : (c == 46) = true
     · simp only [h2, if_true] at hf
-      rw [beq_iff_eq.1 h2]; exact step_dot_alone rest hf
+      rw [beq_iff_eq.1 h2]; exact lexStep_dot_alone rest hf
     simp only [h2, Bool.false_eq_true, if_false] at hf
     by_cases h3 : isOpStart c = true
     · simp only [h3, if_true] at hf
-      exact step_op1 c rest h3 hf
+      exact lexStep_op1 c rest h3 hf
     simp only [h3, Bool.false_eq_true, if_false] at hf
     by_cases h4 : (c == 37) = true
     · simp only [h4, if_true, Bool.and_eq_true, Option.isNone_iff_eq_none] at hf
       have := beq_iff_eq.1 h4; subst this
-      exact step_percent_alone rest hf.1 hf.2
+      exact lexStep_percent_alone rest hf.1 hf.2
     simp only [h4, Bool.false_eq_true, if_false] at hf
     by_cases h5 : (c == 123) = true
     · simp only [h5, if_true, Bool.and_eq_true, Option.isNone_iff_eq_none] at hf
       have := beq_iff_eq.1 h5; subst this
-      exact step_brace_alone rest hf.1 hf.2
-    exact step_plain c rest (punct_plain c hc (by simpa using h1) (by simpa using h2) (by simpa using h3)
+      exact lexStep_brace_alone rest hf.1 hf.2
+    exact lexStep_plain c rest (punct_plain c hc (by simpa using h1) (by simpa using h2) (by simpa using h3)
       (by simpa using h4) (by simpa using h5))
-  | selAssign => exact step_selAssign rest
-  | selCycle => exact step_selCycle rest
-  | selLoop => exact step_selLoop rest
-  | selWhen => exact step_selWhen rest
+  | selAssign => exact lexStep_selAssign rest
+  | selCycle => exact lexStep_selCycle rest
+  | selLoop => exact lexStep_selLoop rest
+  | selWhen => exact lexStep_selWhen rest
 
 theorem Lexeme.ne_nil {r : Rule} {l : Bytes} (h : Lexeme r l) : l ≠ [] := by
   cases h with
